@@ -81,6 +81,13 @@ Definition remove_nat (x : nat) (l : list nat) : list nat := filter (fun y => ne
 
 Section Discipline.
   Variable disc : gvar -> prot.     (* how each global is protected: owned by one thread, or guarded by a lock *)
+  Variable W : gvar -> bool.        (* the WATCHED globals: the ones whose reads the statement is about (all of them, or a subset) *)
+
+  (* the observations of watched globals *)
+  Definition wobs (o : obs) : obs := filter (fun p => W (fst p)) o.
+  (* a value written to a watched global may depend on watched observations only *)
+  Definition write_ok (s : step) : Prop :=
+    match s with Write g f => W g = true -> forall o o', wobs o = wobs o' -> f o = f o' | _ => True end.
 
   Definition locked_by (l : lock) (g : gvar) : bool := match disc g with Locked l' => Nat.eqb l' l | Owned _ => false end.
 
@@ -101,15 +108,15 @@ Section Discipline.
 
   Definition ast_of (p : list step) : ast := fold_left ast_step p (mkAst [] []).
 
-  (* every access respects the discipline, and every Read returns a value written by the same call with no foreign write
+  (* every access to a WATCHED global respects the discipline, and every Read of one returns a value written by the same call with no foreign write
      possible in between (the global is owned by the thread, or the lock guarding it has been held since the write) *)
   Fixpoint ok_from (i : tid) (a : ast) (p : prog) : bool :=
     match p with
     | [] => true
     | s :: r =>
         (match s with
-         | Write g _ => may_access i a g
-         | Read g => may_access i a g && mem g (a_fresh a)
+         | Write g _ => negb (W g) || may_access i a g
+         | Read g => negb (W g) || (may_access i a g && mem g (a_fresh a))
          | Local => true
          | Acq l => negb (mem l (a_held a))
          | Rel l => mem l (a_held a)
@@ -154,16 +161,23 @@ Definition steps_of_tag (gmap : gvar -> gvar) (tok : val) (t : tag) : prog :=
 
 Definition prog_of_trace (gmap : gvar -> gvar) (tok : val) (tr : list tag) : prog := flat_map (steps_of_tag gmap tok) tr.
 
-(* FAITHFUL: the globals are process-wide *)
-Definition gmap_impl : gvar -> gvar := fun g => g.
+Definition W_all : gvar -> bool := fun _ => true.
+(* the parse state and every per-thread global *)
+Definition W_reg : gvar -> bool := fun g => Nat.eqb g GParse || Nat.leb 100 g.
+
+(* BEFORE THE FIX (engine up to commit 94e8b5c^..55a366b^): every global process-wide *)
+Definition gmap_before_fix : gvar -> gvar := fun g => g.
+(* FAITHFUL (current code): the viral-propagation registry is a ContextVar = one cell per thread (100 + 10*i + GRegistry);
+   VirtualCounter, TimePeriodConfig and Exceptions.dataset_output are still process-wide *)
+Definition gmap_impl (i : tid) : gvar -> gvar := fun g => if Nat.eqb g GRegistry then 100 + 10 * i + g else g.
 (* SPEC (the proposed repair): registry, counters, representation and dataset_output are per-thread (thread-local /
    contextvars); thread i's copy of global g is 100 + 10*i + g.  The parse state stays shared under parser_lock. *)
 Definition gmap_spec (i : tid) : gvar -> gvar := fun g => if Nat.eqb g GParse then g else 100 + 10 * i + g.
 
 Definition disc_spec : gvar -> prot :=
   fun g => if Nat.ltb g 100 then Locked PL else Owned ((g - 100) / 10).
-(* under which discipline could the faithful globals be confined?  None of them but the parse state is lock-guarded: *)
-Definition disc_impl : gvar -> prot := fun _ => Locked PL.
+(* the discipline the current code follows for the watched globals W_reg: parse state under parser_lock, registry cells per thread *)
+Definition disc_impl : gvar -> prot := disc_spec.
 
 (* the shape of the traces of the four API calls (what the recorded traces are checked against) *)
 Definition is_sem_item (t : tag) : bool :=
